@@ -4,6 +4,10 @@ From Coq Require Import List ZArith Bool Arith.
 From EpyV Require Import Lib.Prelude Model.Loci.
 Import ListNotations.
 
+(* a call of the history as one instance sees it: made through its own API, or through the API of
+   another instance of the same simulation (only compartment calls are generated there) *)
+Inductive top := Own (o : op) | Other.
+
 Record obs_t := {
   o_raised : bool;                         (* the call raised an exception *)
   o_nodes : list Z;                        (* list(g.nodes()) *)
@@ -17,9 +21,14 @@ Record case_t := {
   c_effects : list (Z * list nat);         (* CompartmentedModel._effects as observed: compartment -> loci indices *)
   c_universe : list Z;
   c_nodes : list Z; c_edges : list (Z * Z); c_init : list (Z * Z);
-  c_ops : list op; c_obs0 : obs_t; c_obs : list obs_t;
-  c_ops_b : list op; c_obs_b : list obs_t  (* second history from the same set-up state (may be empty) *)
+  c_ops : list top; c_obs0 : obs_t; c_obs : list obs_t;
+  c_ops_b : list top; c_obs_b : list obs_t  (* second history from the same set-up state (may be empty) *)
 }.
+
+(* several named instances of compartmented models on one network (ProcessSequence): each instance
+   has its own decorated COMPARTMENT attribute and its own loci, i.e. its own copy of the model
+   state over the shared network; a call made through another instance must leave it as it is *)
+Record mcase_t := { m_parts : list case_t }.
 
 Definition same_uedge (e f : Z * Z) : bool := same_edge (fst f) (snd f) e.
 Definition attr_eqb (a b : option (option Z)) : bool := opt_eqb (opt_eqb Z.eqb) a b.
@@ -37,12 +46,14 @@ Definition check_state (u : list Z) (s : state) (o : obs_t) : bool :=
 Definition outcome_matches (r : outcome) (raised : bool) : bool :=
   match r with Done => negb raised | Raised => raised | Outside => false end.
 
-Fixpoint check_trace (tbl : list spec) (u : list Z) (s : state) (ops : list op) (obs : list obs_t) : bool :=
+Fixpoint check_trace (tbl : list spec) (u : list Z) (s : state) (ops : list top) (obs : list obs_t) : bool :=
   match ops, obs with
   | [], [] => true
-  | o :: ops', ob :: obs' =>
+  | Own o :: ops', ob :: obs' =>
       let so := step_out tbl s o in
       outcome_matches (snd so) (o_raised ob) && check_state u (fst so) ob && check_trace tbl u (fst so) ops' obs'
+  | Other :: ops', ob :: obs' =>
+      check_state u s ob && check_trace tbl u s ops' obs'
   | _, _ => false
   end.
 
@@ -56,3 +67,5 @@ Definition check_case (c : case_t) : bool :=
   && check_state (c_universe c) s0 (c_obs0 c)
   && check_trace tbl (c_universe c) s0 (c_ops c) (c_obs c)
   && check_trace tbl (c_universe c) s0 (c_ops_b c) (c_obs_b c).
+
+Definition check_mcase (m : mcase_t) : bool := forallb check_case (m_parts m).
